@@ -126,6 +126,38 @@ fn r<T>(id: u64) -> Ref<T> {
     Ref::new(PlainRef { id, gen: 0 })
 }
 
+// Page and Annot can form an in-memory cycle once a page's lazy annotations are loaded
+// (Page -> annotations -> Annot -> /P -> the same shared Page), so their renderings are written
+// field by field here and never descend into a Lazy cell's loaded value or an annotation's page.
+pub fn annot_text(a: &Annot) -> String {
+    use crate::digest::debug_bounded as d;
+    format!(
+        "Annot{{subtype:{},rect:{},contents:{},page:{},nm:{},date:{},flags:{},ap:{},as:{},border:{},color:{},ink:{},other:{}}}",
+        d(&a.subtype), d(&a.rect), d(&a.contents), d(&a.page.as_ref().map(|p| p.get_ref().get_inner())), d(&a.annotation_name), d(&a.date), a.annot_flags,
+        d(&a.appearance_streams), d(&a.appearance_state), d(&a.border), d(&a.color), d(&a.ink_list), d(&a.other)
+    )
+}
+pub fn page_text(p: &Page) -> String {
+    use crate::digest::debug_bounded as d;
+    let annots = p.annotations.to_primitive(&mut NoUpdate).map(|x| d(&x)).unwrap_or_else(|e| crate::digest::error_kind(&e));
+    format!(
+        "Page{{parent:{},resources:{},media:{},crop:{},trim:{},contents:{},rotate:{},metadata:{},lgi:{},vp:{},annots:{},other:{}}}",
+        d(&p.parent), d(&p.resources), d(&p.media_box), d(&p.crop_box), d(&p.trim_box), d(&p.contents), p.rotate, d(&p.metadata), d(&p.lgi), d(&p.vp), annots, d(&p.other)
+    )
+}
+pub fn node_text(n: &PagesNode) -> String {
+    match n {
+        PagesNode::Tree(t) => format!("Tree({})", crate::digest::debug_bounded(t)),
+        PagesNode::Leaf(p) => format!("Leaf({})", page_text(p)),
+    }
+}
+fn answer_text(x: Result<String, PdfError>) -> Answer {
+    match x {
+        Ok(s) => Answer::ok_text(crate::digest::canon(&s)),
+        Err(e) => Answer::err(&e),
+    }
+}
+
 fn answer<T: std::fmt::Debug>(x: Result<T, PdfError>) -> Answer {
     match x {
         Ok(v) => Answer::ok_debug(&v),
@@ -236,7 +268,7 @@ pub fn exec(file: &SimFile, res: &impl Resolve, own_resolver: bool, op: &Op) -> 
     match *op {
         Op::Resolve(id) => answer(res.resolve(PlainRef { id, gen: 0 })),
         Op::Get(ty, id) => match ty {
-            Ty::Pages => answer(res.get::<PagesNode>(r(id))),
+            Ty::Pages => answer_text(res.get::<PagesNode>(r(id)).map(|n| format!("@{} {}", n.get_ref().get_inner().id, node_text(&n)))),
             Ty::Font => answer(res.get::<Font>(r(id))),
             Ty::XObject => answer(res.get::<XObject>(r(id))),
             Ty::ObjStm => objstm_answer(res, id),
@@ -245,11 +277,11 @@ pub fn exec(file: &SimFile, res: &impl Resolve, own_resolver: bool, op: &Op) -> 
             Ty::NumTree => answer(res.get::<NumberTree<PageLabel>>(r(id))),
             Ty::Outline => answer(res.get::<OutlineItem>(r(id))),
             Ty::Field => answer(res.get::<FieldDictionary>(r(id))),
-            Ty::Annot => answer(res.get::<Annot>(r(id))),
+            Ty::Annot => answer_text(res.get::<Annot>(r(id)).map(|a| annot_text(&a))),
             Ty::Resources => answer(res.get::<Resources>(r(id))),
             Ty::Prim => answer(res.get::<Primitive>(r(id))),
         },
-        Op::GetPage(n) => answer(page_of(file, res, own_resolver, n)),
+        Op::GetPage(n) => answer_text(page_of(file, res, own_resolver, n).map(|p| format!("@{} {}", p.get_ref().get_inner().id, page_text(&p)))),
         Op::StreamData(id) => match res.get::<Stream<()>>(r(id)) {
             Ok(s) => match (*s).data(res) {
                 Ok(d) => Answer::ok_bytes(&d),
@@ -284,7 +316,13 @@ pub fn exec(file: &SimFile, res: &impl Resolve, own_resolver: bool, op: &Op) -> 
         },
         Op::PageWalk(n) => page_walk(file, res, own_resolver, n),
         Op::LazyAnnots(n) => match page_of(file, res, own_resolver, n) {
-            Ok(p) => answer(p.annotations.load(res)),
+            Ok(p) => answer_text(p.annotations.load(res).map(|v| {
+                let items: Vec<String> = v.iter().map(|a| match a {
+                    MaybeRef::Direct(a) => format!("direct {}", annot_text(a)),
+                    MaybeRef::Indirect(a) => format!("@{} {}", a.get_ref().get_inner().id, annot_text(a)),
+                }).collect();
+                format!("[{}]", items.join(";"))
+            })),
             Err(e) => Answer::err(&e),
         },
         Op::LazyFont(n) => match page_of(file, res, own_resolver, n) {
